@@ -92,9 +92,21 @@ def assemble(repo, layout_path):
         elif cmd == "close":
             em.add("}", kind="meta")
         elif cmd == "assume-unit":
-            u = parse_unit(os.path.join(CONTRACTS, "units", rest + ".unit"))
+            # `assume-unit A + B + C`: ONE assumed function carrying the postconditions of several units of the SAME function, each
+            # proved in its own program under the same preconditions (compared textually here, mismatch -> exit 2)
+            names = [x.strip() for x in rest.split("+")]
+            us = [parse_unit(os.path.join(CONTRACTS, "units", nm + ".unit")) for nm in names]
+            u = us[0]
+            def _req(uu):
+                return sorted(re.sub(r"\s+", "", ln) for sc in uu["sections"] if sc["label"].startswith("requires") for ln in sc["lines"] if ln.strip())
+            for extra in us[1:]:
+                if _req(extra) != _req(u) or extra["head"]["fn"] != u["head"]["fn"] or extra["head"]["file"] != u["head"]["file"]:
+                    raise Undecided("assume-unit: %s and %s do not share function and preconditions" % (u["head"]["unit"], extra["head"]["unit"]))
+                u["sections"].extend(sc for sc in extra["sections"] if sc["label"].startswith("ensures"))
             info = emit_unit(em, repo, u, table, log, assumed=True)
             funcs.append(info)
+            for extra in us[1:]:
+                funcs.append(dict(info, unit=extra["head"]["unit"]))
         elif cmd == "unit":
             u = parse_unit(os.path.join(CONTRACTS, "units", rest + ".unit"))
             info = emit_unit(em, repo, u, table, log)
